@@ -42,7 +42,22 @@ def sc_box_start(eng, fid, fn, it, ob):
             for b, t in sb.calls():
                 if callee_path(t["callee"]) == caller:
                     n += 1
-                    if not _dominated_by_header_read(fx, sb, b):
+                    if _dominated_by_header_read(fx, sb, b):
+                        continue
+                    # the dispatch may live in a private helper that performs no stream operation before the decoder call
+                    # and is itself called right after a header read (`read_top_level(reader, name, s, ..)`)
+                    helper_ok = False
+                    reads_before = [bb for bb, tt in sb.calls() if (bb == b or sb.can_reach(bb, b)) and bb != b and
+                                    (tt["callee"].get("trait") in IO_TRAITS or (callee_path(tt["callee"]) or "") in io_fallible_set(fx, cg))]
+                    if not reads_before:
+                        up = sorted(cg.callers_of(site_fn) & eng.clo)
+                        helper_ok = bool(up)
+                        for up_fn in up:
+                            ub = body_of(fx.fns[up_fn])
+                            for b3, t3 in ub.calls():
+                                if callee_path(t3["callee"]) == site_fn and not _dominated_by_header_read(fx, ub, b3):
+                                    helper_ok = False
+                    if not helper_ok:
                         bad.append("%s calls %s without a preceding BoxHeader::read" % (short(site_fn), short(caller)))
     return (not bad and n > 0), ("%d decoder call sites, each dominated by BoxHeader::read" % n if not bad else "; ".join(bad[:3]))
 
